@@ -27,7 +27,7 @@ the code has two halves, both run here:
     larger than the file, without the file), AGES (validators exactly at, one second / nanosecond around a file's age, the validator of one
     file presented for another) and SIZES (whole pieces); what the server HANDS OUT in its answers (validators, cookies) coming back on
     the same and on another target.  In the schedule: rounds of feature requests whose clients keep the write side open; clients that
-    reset the connection; 320 connections at once; the process stopped while 64 connections queue up, then continued; an instance whose
+    reset the connection; 320 connections from 96 clients at once (below the listen backlog); the process stopped while 64 connections queue up, then continued; an instance whose
     FIRST traffic is concurrent (no start-up probe) and a file nobody asked for on 48 connections at once; a stalling client that arrives
     while all workers are busy, connections queued before and behind it, requests for the file the stalling client is being sent.  Other
     observation points: the SECOND answer on a connection; the served directory itself (what the server wrote there is asked for on that
@@ -369,12 +369,13 @@ def exercise(res, pr, rng, docroot, reqs, reference, N, quota, label='', env=Non
                 m = len(idx)
                 conns = m
             elif shape == 'flood':
-                # far more connections at once than workers, than the listen queue of most servers, than any limit a maintainer would pick
-                # first (100, 128, 256): short requests of every kind, every connection opened at the same moment
+                # far more connections than workers, as many at the same moment as the listen queue takes: std::net::TcpListener asks for a
+                # backlog of 128, and what arrives beyond it is dropped or reset by the KERNEL before the server sees it (on an idle machine
+                # 320 clients at once overflow it: a false alarm of this check, corrected) - 96 clients, each opening one connection after the other
                 short = [i for i in range(len(reqs)) if len(expected[i]) < 20000]
                 m = 320 if pr.tier == 'quick' else 700
                 idx = [rng.choice(short) for _ in range(m)]
-                conns = m
+                conns = F.FROZEN_MAX
             elif shape == 'burst':
                 # many requests of ONE family at once (form posts only, ranges of one file only, preflights only, errors only …):
                 # a race in something only that family uses needs two of them in the same microseconds
